@@ -26,6 +26,7 @@ for id in $ids; do
     t1=$(date +%s)
     if [ $rc -eq 1 ]; then res="caught-$tier ($((t1-t0))s): $(echo "$out" | grep 'violated:' | head -1 | sed 's/cfg=.*//; s/^ *violated: //')"; break; fi
     if [ $rc -eq 2 ]; then res="inconclusive-$tier: $(echo "$out" | grep 'UNCONFIRMED\|PROBLEM' | head -1 | cut -c1-200)"; fi
+    if echo "$out" | grep -q "PROBLEM.*unsupported"; then break; fi   # code outside the encodable fragment: a deeper tier cannot help
   done
   echo "$id ($prop): $res"
   python3 - "$id" "$res" <<'PY'
